@@ -488,6 +488,17 @@ pub fn c18(c: &Case, rep: &mut Report, seed: u64) {
             rep.inconclusive(c, "interpreter-limit-at-instantiation");
             continue;
         }
+        // the new body costs one call more than the host import it replaces, so fuel runs out at different points:
+        // a call that exhausts its fuel on either side, and everything after it, is not comparable
+        if let Some(k) = a.steps.iter().zip(b.steps.iter()).position(|(x, y)| x.0 == "out-of-fuel" || y.0 == "out-of-fuel") {
+            a.steps.truncate(k);
+            b.steps.truncate(k);
+            rep.count("calls-not-compared-after-fuel-exhaustion", 1);
+        }
+        if a.instantiate.contains("OutOfFuel") || b.instantiate.contains("OutOfFuel") {
+            rep.inconclusive(c, "fuel-exhausted-at-instantiation");
+            continue;
+        }
         // a start function that calls the replaced import changes instantiation traces only by name: compare outcome
         if let Some((sig, detail)) = diff(&a, &b, &calls) {
             rep.violation(c, &format!("C18/{}/{}", which, sig), &format!("function {}: {}", fi, detail), &blob);
